@@ -1,6 +1,6 @@
 """mlalint core: loads the facts produced by factsdrv and offers CFG / dataflow
 primitives for the rule modules. stdlib only."""
-import json, os, sys, collections
+import json, os, sys, collections, re
 
 PKGS = {  # package -> fact file stem
     'mla': 'mla.mla.lib',
@@ -233,6 +233,7 @@ class Body:
         self.j = j
         self.defpath = j['def']
         self.key = pkg + '::' + j['def']
+        self.nkey = None  # set below (line-free, generics-free key)
         self.kind = j['kind']
         self.name = j.get('name', '')
         self.span = j['span']
@@ -248,6 +249,20 @@ class Body:
         self._doms = None
         self._preds = None
         self._defs = None
+        self.nkey = self._mk_nkey()
+
+    def _mk_nkey(self):
+        d = self.defpath
+        clos = ''
+        m = re.search(r'(::\{closure#\d+\})+$', d)
+        if m:
+            clos = m.group(0)
+            d = d[:m.start()]
+        if self.kind == 'Closure' or clos:
+            return self.pkg + '::' + norm_q(d) + clos
+        if self.impl_trait and (self.impl_adt or self.impl_self):
+            return '%s::<%s as %s>::%s' % (self.pkg, self.impl_adt or norm(self.impl_self), self.impl_trait, self.name)
+        return self.pkg + '::' + norm_q(d)
 
     def __repr__(self):
         return '<Body %s>' % self.key
@@ -884,7 +899,7 @@ class Report:
 
     def fn(self, body):
         if body is not None:
-            self.functions.add(body.key)
+            self.functions.add(body.nkey)
 
 
 # ------------------------------------------------------------------ must-derive
@@ -1119,3 +1134,128 @@ def branch_on_call(prog, body, bb):
     if pol:
         return (cb, t, si['true'], si['false'])
     return (cb, t, si['false'], si['true'])
+
+
+# ------------------------------------------------------------------ misc helpers
+def norm(path):
+    """strip generic arguments from a def path: a::B::<T>::f -> a::B::f ; <X<T> as Tr>::f kept but without <..> args"""
+    out = []
+    depth = 0
+    i = 0
+    s = path
+    while i < len(s):
+        ch = s[i]
+        if ch == '<':
+            # keep leading '<' of qualified paths ("<T as Trait>::m") readable: treat every <...> as droppable
+            depth += 1
+        elif ch == '>':
+            depth -= 1
+        elif depth == 0:
+            out.append(ch)
+        i += 1
+    r = ''.join(out)
+    while '::::' in r:
+        r = r.replace('::::', '::')
+    return r.strip(':') if r.startswith('::') else r
+
+
+def cnorm(t):
+    return norm(t.cdef)
+
+
+def const_of(body, op, depth=0):
+    """the constant dict an operand (through copies / refs / reborrows / unsize casts) denotes, else None"""
+    if depth > 10:
+        return None
+    if op.kind == 'const':
+        return op.k
+    if op.place is None:
+        return None
+    l, projs = op.place
+    if any(p[0] != 'deref' for p in projs):
+        return None
+    d = unique_def(body, l)
+    if d is None or d[2] != 'assign':
+        return None
+    rv = d[3].rv
+    if rv.r in ('use', 'cast'):
+        return const_of(body, rv.ops[0], depth + 1)
+    if rv.r in ('ref', 'rawptr'):
+        if any(p[0] != 'deref' for p in rv.place[1]):
+            return None
+        return const_of(body, _mk_copy((rv.place[0], ())), depth + 1)
+    return None
+
+
+def const_bytes_of(body, op):
+    k = const_of(body, op)
+    if k is not None and 'bytes' in k:
+        return bytes(k['bytes'])
+    return None
+
+
+def const_int_of(body, op):
+    k = const_of(body, op)
+    if k is not None:
+        return k.get('int')
+    return None
+
+
+def find_bodies(prog, pkg, adt=None, name=None, trait=None, prefix=None):
+    res = []
+    for b in prog.crates[pkg].bodies:
+        if adt is not None and b.impl_adt != adt:
+            continue
+        if name is not None and b.name != name:
+            continue
+        if trait is not None and b.impl_trait != trait:
+            continue
+        if trait is None and adt is not None and name is not None and False:
+            continue
+        if prefix is not None and not norm(b.defpath).startswith(prefix):
+            continue
+        res.append(b)
+    return res
+
+
+def one_body(prog, rep, rule, pkg, **kw):
+    """resolve an anchor function; fail closed if missing or ambiguous"""
+    bs = find_bodies(prog, pkg, **kw)
+    desc = ','.join('%s=%s' % kv for kv in sorted(kw.items()))
+    if len(bs) != 1:
+        rep.ob(rule, False, '%s|anchor|%s' % (rule, desc), 'anchor function (%s) matched %d bodies in %s -- fail closed' % (desc, len(bs), pkg))
+        return None
+    rep.fn(bs[0])
+    return bs[0]
+
+
+def arm_of_enum_switch(prog, body, pred_place=None, adt=None):
+    """all enum switches in body: list of (bb, switch_info) optionally filtered by adt path"""
+    out = []
+    for b in body.blocks:
+        if b.term.kind == 'switch' and not b.cleanup:
+            si = switch_info(prog, body, b.idx)
+            if si and si['kind'] == 'enum' and (adt is None or si['adt'] == adt):
+                out.append((b.idx, si))
+    return out
+
+
+def norm_q(path):
+    """generics-free rendering that keeps qualified-path structure: '<A<T> as Tr<U>>::m' -> '<A as Tr>::m'"""
+    s = path
+    if s.startswith('<'):
+        # find matching '>' of the leading qualifier
+        depth = 0
+        for i, ch in enumerate(s):
+            if ch == '<':
+                depth += 1
+            elif ch == '>':
+                depth -= 1
+                if depth == 0:
+                    inner = s[1:i]
+                    rest = s[i + 1:]
+                    if ' as ' in inner:
+                        a, b = inner.split(' as ', 1)
+                        return '<%s as %s>%s' % (norm(a), norm(b), norm(rest))
+                    return '<%s>%s' % (norm(inner), norm(rest))
+    return norm(s)
